@@ -120,13 +120,21 @@ class Model():
         if build_code:
             self.build_code()
 
+    def _defn_address(self, defn):
+        if isinstance(defn, xltypes.XLRange):
+            for key, rng in self.ranges.items():
+                if rng is defn:
+                    return key
+            return getattr(defn, 'address_str', defn.address)
+        return defn.address
+
     def build_code(self):
         """Define the Python code for all cells in the dict of cells."""
 
         for cell in self.cells:
             if self.cells[cell].formula is not None:
                 defined_names = {
-                    name: defn.address
+                    name: self._defn_address(defn)
                     for name, defn in self.defined_names.items()}
                 self.cells[cell].formula.ast = parser.FormulaParser().parse(
                     self.cells[cell].formula.formula, defined_names)
